@@ -384,6 +384,17 @@ def r_tokens(ctx: Ctx, rule: str):
             rep.ob(rule, "parse_args receives the words of the line", False, node=p, detail="parse_args() without arguments parses sys.argv, not the client's line")
             continue
         v = judge_all(p.func, p.env, arg)
+        if v is True and isinstance(strip_cast(arg), ast.Name):
+            # the list of words is bound to a local: nothing may rewrite it in place before it is parsed (`args[0] = args[0].lower()`)
+            nm_ = strip_cast(arg).id
+            for x in ctx.an.scope(p.func)._own_nodes():
+                tgts_ = x.targets if isinstance(x, (ast.Assign, ast.Delete)) else ([x.target] if isinstance(x, (ast.AugAssign, ast.AnnAssign)) else [])
+                if any(isinstance(t_, ast.Subscript) and isinstance(t_.value, ast.Name) and t_.value.id == nm_ for t_ in tgts_) or \
+                        (isinstance(x, ast.AugAssign) and isinstance(x.target, ast.Name) and x.target.id == nm_):
+                    v = f"the list of words `{nm_}` is rewritten in place (`{ast.unparse(x)[:60]}`) before it is parsed"
+                if isinstance(x, ast.Call) and isinstance(x.func, ast.Attribute) and isinstance(x.func.value, ast.Name) and x.func.value.id == nm_ \
+                        and x.func.attr in ("append", "insert", "extend", "pop", "remove", "sort", "reverse", "clear", "__setitem__", "__delitem__"):
+                    v = f"the list of words `{nm_}` is modified by .{x.func.attr}(...) before it is parsed"
         rep.ob(rule, "the words handed to the parser are the blank-separated words of the line, unchanged", True if v is True else (False if isinstance(v, str) else None),
                node=p, detail=v if isinstance(v, str) else ("" if v is True else f"cannot classify how `{ast.unparse(arg)[:60]}` is computed"))
 
@@ -1665,7 +1676,16 @@ def r_parser_config(ctx: Ctx, rule: str) -> None:
                        detail=f"{how} {key}={ast.unparse(val) if val is not None else '?'}")
     rep.floor(rule, "calls with keywords in the control parser / session modules (scanned)", n_sites, 10)
     rep.ob(rule, "no argparse reading option is changed anywhere in the control package", True, construct="(scan of control.parser and control.session)")
-
+    # ... and the reading itself is argparse's: ControlParser overrides the four output / exit hatches, its constructor and
+    # add_subparsers - no method that takes part in parsing (parse_args, parse_known_args, _parse_known_args, _get_values, ...)
+    import argparse as _argparse
+    allowed_overrides = {"__init__", "add_subparsers", "_print_message", "exit", "error", "print_help"}
+    inherited = {nm_ for nm_ in cp.methods if hasattr(_argparse.ArgumentParser, nm_)}
+    rep.floor(rule, "ArgumentParser methods overridden by ControlParser", len(inherited), 4)
+    extra = sorted(inherited - allowed_overrides)
+    rep.ob(rule, "ControlParser overrides no method of ArgumentParser that takes part in parsing (the words are read the way argparse reads them)",
+           not extra, func=cp.methods[extra[0]] if extra else None, construct=f"overrides: {extra}" if extra else f"overrides: {sorted(inherited)}",
+           detail="" if not extra else f"ControlParser.{extra[0]} replaces argparse's own: what a command line means is no longer what the rules about it assume")
 
 def public_members(ctx: Ctx, c: ClassInfo):
     """(name, FuncInfo, [(param, annotation, default)]) for every public function/property of the class as getmembers + the '_' filter see it"""
